@@ -56,7 +56,40 @@ class Driver:
         return json.loads(line)
 
     def ask_many(self, reqs):
-        """Pipeline many requests (writer thread avoids pipe deadlock)."""
+        """Pipeline many requests (writer thread avoids pipe deadlock).  Large batches of stateless `scan` requests are split over a pool of
+        helper driver processes (same binary; the answers are a function of the request alone)."""
+        import threading
+        if len(reqs) >= 96 and all(r.get("op") == "scan" for r in reqs) and not getattr(self, "_helper", False):
+            k = min(int(os.environ.get("VERIF_DRIVERS", "8")), max(1, len(reqs) // 48))
+            if k > 1:
+                if not hasattr(self, "_pool"):
+                    self._pool = []
+                while len(self._pool) < k - 1:
+                    h = Driver()
+                    h._helper = True
+                    self._pool.append(h)
+                ds = [self] + self._pool[:k - 1]
+                size = (len(reqs) + k - 1) // k
+                parts = [reqs[i * size:(i + 1) * size] for i in range(k)]
+                outs = [None] * k
+                errs = []
+
+                def work(j):
+                    try:
+                        outs[j] = ds[j]._ask_many_one(parts[j]) if parts[j] else []
+                    except BaseException as e:      # noqa
+                        errs.append(e)
+                ts = [threading.Thread(target=work, args=(j,)) for j in range(k)]
+                for t in ts:
+                    t.start()
+                for t in ts:
+                    t.join()
+                if errs:
+                    raise errs[0]
+                return [x for o in outs for x in o]
+        return self._ask_many_one(reqs)
+
+    def _ask_many_one(self, reqs):
         import threading
         def w():
             for r in reqs:
@@ -75,6 +108,8 @@ class Driver:
         return out
 
     def close(self):
+        for h in getattr(self, "_pool", []):
+            h.close()
         try:
             self.p.stdin.close()
             self.p.wait(timeout=10)
